@@ -5,6 +5,7 @@ from . import macros as mac
 
 PER_TARGET = True      # every rule below looks at one target configuration at a time (check.py may fork one worker per target)
 NEEDS_WS = True
+HARNESS_TIMES = 3       # harness.py: pub const TIMES: usize = 3
 DECIDED = ("for every arm of fake! as rustc parsed it at check time: R8.1 one well-typed use per arm (and per instantiation shape) is accepted "
            "by rustc (compile witness; cross-checked with the `meta_variable_misuse` lint on the macro definition); R8.2 the instantiation "
            "expands from its own arm (definition-site span of the generated fn lies in that arm's transcriber); R8.3 common meaning on the "
@@ -25,6 +26,33 @@ def run(ck, models, tier, ws):
     ck.trusted += ["rustc macro expansion, type checking and MIR", "std models"]
     for tm in models:
         run_one(ck, tm, tier, ws)
+
+
+def generated_convention_obligations(ck, tm, tier, ws, rule):
+    """For every compiling fake! arm: the function the macro generates has the ABI of the function-pointer type the macro records for
+    it (that type is what the signature gate compares with the target's). Repeated by C13: a fake generated with another ABI than the
+    one its caller uses reads its arguments from the wrong places, whatever the trampoline does. Returns the number decided."""
+    hm = mac.get(ws, tm.facts, tier)
+    n = 0
+    for mod, d in hm.modules("fake"):
+        arm = d["arm"]
+        if hm.h.verdicts.get(mod):
+            continue
+        key = "arm%02d[%s]" % (arm.index, arm.label())
+        fake = mod + "::instantiate::fake"
+        ff = hm.facts.fns.get(fake)
+        rec = None
+        for v in hm.variants(mod + "::instantiate"):
+            for e in v.trace:
+                if e.kind == "ext" and e.name.endswith("FuncPtr::new"):
+                    rec = e
+        tstr, tkind, tjson = type_of_name(rec.args[1]) if rec else (None, None, None)
+        ok = ff is not None and tkind == "fnptr" and tjson is not None and ff["abi"].strip('"') == tjson["abi"].strip('"') and \
+            isinstance(rec.args[0], FnVal) and rec.args[0].path == fake
+        n += 1
+        ck.ob(rule, "%s/generated-fn-has-the-recorded-abi" % key, tm.target, ok,
+              "generated fn: abi=%s; recorded fn-pointer type: %s" % (ff["abi"] if ff else None, tstr), "src/interface/macros.rs:%d" % arm.line)
+    return n
 
 
 def run_one(ck, tm, tier, ws):
@@ -105,6 +133,18 @@ def run_one(ck, tm, tier, ws):
         ck.ob("R8.3", "%s/%s" % (key, "budget-edge" if o["times"] else "no-budget-edge"), tm.target, (nbud >= 1) == bool(o["times"]),
               "arm %s `times`: %d path(s) diverging on the result of the counter's fetch_add before any user piece" % (
                   "with" if o["times"] else "without", nbud))
+        # ... and an admitted call is one of the first N: on every returning path the fetch_add result lies in [0, N-1] (C06 R6.2)
+        if o["times"]:
+            from .. import guards
+            for v in admitted:
+                rm = rmw_events(v)
+                if not rm:
+                    ck.ob("R8.3", "%s/admitted-call-within-budget" % key, tm.target, False, "a returning path of an arm with `times` makes no counter RMW")
+                    continue
+                lo, hi = guards.interval_of(rm[0].ret.e, v.decisions, signed=False)
+                ck.ob("R8.3", "%s/admitted-call-within-budget" % key, tm.target, lo <= 0 and hi == HARNESS_TIMES - 1,
+                      "returning path: previous call count in [%s, %s]; `times: N` admits exactly [0, N-1] (N = %d in the harness)" % (lo, hi, HARNESS_TIMES),
+                      where(rm[0]))
         for v in vs:
             ms = markers(v)
             conds = markers(v, COND)
